@@ -16,6 +16,8 @@ impl HeadlessShell {
 impl Shell for HeadlessShell {
   fn run(&mut self, mut core: Core) {
     loop {
+      #[cfg(gb_dynarec_verif)]
+      crate::verif::budget_tick();
       core.update();
     }
   }
